@@ -472,7 +472,7 @@ class C07(Property):
     TRICKY_TEXTS = ['', '?', '#', '?#', '#?', '??', '##', 'a?b?c', 'a#b#c', 'a#b?c', 'a?b#c?d#e', '?a#', '/?#', '/.?.#.',
                     'a/b?c/d#e/f', '?k=1&k=2#s', '?;', '?&#', './a:b', 'a/b:c', ':', 'a:', 'a:b', ':a', '/:a', '?a:b',
                     '#a:b', '//h/p', '//h', '//', '///p', '/p//q', 'http://u@h:1/p?q#f', 'urn:x/y?z', 'x-y.z:a#b',
-                    'a b', 'g;x=1/./y', '..', '.', '../', '/..', 'a//b', '?y=1;z=2', '1:2', '+:x', 'a+b:c']
+                    'g;x=1/./y', '?a?b', 'a?b?c#d', '?k=v?w&j', '?=', '?=v&k==w', '?a=b=c', "?!$'()*,:@/", "#!$&'()*,;=:@/?", '..', '.', '../', '/..', 'a//b', '?y=1;z=2', '1:2', '+:x', 'a+b:c']
 
     def parse_family(self, driver):
         from boltons.urlutils import URL
@@ -491,6 +491,7 @@ class C07(Property):
         n_rel = 0
         for t, out in zip(texts, outs):
             comps, _, obj = out.partition(' ')
+            obj = obj.strip()
             sc, au, pa, qu, fr = rfc_parse(t)
             want = ','.join([o(sc), o(au), hx(pa), o(qu), o(fr)])
             if comps != want:
@@ -500,21 +501,25 @@ class C07(Property):
                     raise InfraError('driver parsed %r as a relative reference' % t)
                 continue
             c = {'path': pa, 'query': qu, 'frag': fr}
-            if not in_model_domain(c):
-                continue
+            if '%' in t or '+' in t or not all(32 < ord(ch) < 127 for ch in t):
+                continue        # percent-decoding / '+' / IDNA are property C06's business
             n_rel += 1
             try:
                 with time_limit(10):
-                    u = self.dump(URL(t))
-                got = 'C' + '|'.join([u['scheme'] or '', u['user'] or '', u['pw'] or '', str(u['port'] or 0), u['path'],
-                                      u['query'], u['frag']])
-                if u['host']:
-                    got = 'T' + u['text']
+                    u = URL(t)
+                    if u.scheme or u.host or u.username or u.password or u.port:
+                        got = 'unexpected scheme/authority: ' + repr(self.dump(u))
+                    else:
+                        got = 'P' + '/'.join(hx(p) for p in u.path_parts) + \
+                              ' Q' + '&'.join(hx(k) + ('' if v is None else '=' + hx(v))
+                                              for k, v in u.query_params.iteritems(multi=True)) + \
+                              ' F' + hx(u.fragment)
             except Exception as e:       # noqa: BLE001
                 got = 'X' + exc_name(e)
             if got != obj:
-                f = Failure('parse_mismatch', 'URL(%r) has components %s, the model (refOfText: fragment from the first '
-                            '#, query from the first ? before it) says %s' % (t, got, obj))
+                f = Failure('parse_mismatch', 'URL(%r) has path segments / query items / fragment %s, the model '
+                            '(refOfText: fragment from the first #, query from the first ? before it) says %s' % (
+                                t, got, obj))
                 bad.append(({'base': BASES[0], 'refs': [compact(c)], 'as_url': 0}, f))
         self.stats['reference_texts_parsed'] = len(texts)
         self.stats['reference_texts_relative_in_domain'] = n_rel
